@@ -55,6 +55,11 @@ def jobs(tier, imports=True):
             j.name = "vnacal_new." + j.name
             j.imported = True
             J.append(j)
+        elif j.name.startswith("param_hash.grow"):      # "per-vnacal_new parameter hash": a handle resolves to ONE node, also after the table grew
+            j.name = "vnacal_new." + j.name
+            j.canary = False
+            j.imported = True
+            J.append(j)
     # "values returned for solved unknown parameters are those solved": the commit loop of the solve gives a handle
     # that was solved before (over more, or fewer, frequencies) exactly the grid and values of THIS solve
     import C11
